@@ -1,4 +1,5 @@
 SPECIFICATION Spec
 CONSTANT MaxLen = 2
+CONSTANT CoreOnly = FALSE
 INVARIANT EmitAllowed
 CHECK_DEADLOCK FALSE
